@@ -34,6 +34,12 @@ Definition arity (o : op) : nat := match o with UPos | UNeg | UNot => 1 | _ => 2
 
 Inductive cmpop := CLt | CLe | CGt | CGe.
 
+(* engine/context configurations whose options touch dispatch: the default engine and
+   context; an engine created with yaql.iterableDicts (dictionaries pass Iterable());
+   the legacy factory (sets that option itself) with the legacy context *)
+Inductive cfg := CDefault | CIterDicts | CLegacy.
+Definition all_cfgs : list cfg := [CDefault; CIterDicts; CLegacy].
+
 (* payload tags: which Python function an overload runs (mapped by the generator from the
    function's module and qualified name; anything it does not know is POther) *)
 Inductive tag :=
@@ -559,6 +565,7 @@ Inductive obs := OVal (v : fval) | OErr (e : err) | OFloatUnchecked | OOtherExc.
 
 (* `a OP b`, or `(a OP b) OP2 c` when c_then is given *)
 Record case := {
+  c_cfg : cfg;
   c_op : op;
   c_args : list fval;
   c_then : option (op * fval);
@@ -591,6 +598,6 @@ Definition run_case (table : op -> optable) (c : case) : list tag * res float :=
     end
   end.
 
-Definition case_ok (table : op -> optable) (c : case) : bool :=
-  let '(tags, r) := run_case table c in
+Definition case_ok (tables : cfg -> op -> optable) (c : case) : bool :=
+  let '(tags, r) := run_case (tables (c_cfg c)) c in
   list_eqb tag_eqb tags (c_ran c) && res_matches r (c_obs c).
